@@ -387,8 +387,8 @@ LEVEL_TEXT = ('Machine-checked proof (Coq 8.16.1), for every well-formed schema 
               '(default cascade_delete, column side, ON DELETE clause) are compared with the real mapping for the test schemas and all 81 two-entity declarations, '
               'and deletion histories (all orders of small graphs in the thorough tier) are run on real Pony + SQLite with the rows read back.')
 LEVEL_NOTE = ('The model is abstract (one stored link per related pair): the two-sided in-memory bookkeeping is C12/C13 territory and is tied here only through the rows '
-              'read back. "Refusal changes nothing" holds in the model by construction; the implementation violates it in the ways recorded under C13 '
-              '(listed here as known findings with DB-level replays). C15_cascade_closure covers the whole call: every object reachable through cascading relationships in the state before the call is gone afterwards.')
+              'read back. "Refusal changes nothing" holds in the model by construction; the three ways the implementation used to violate it (C13 code sites) were repaired in /repo '
+              '(6e4a87a, e3298c1) and no longer reproduce. C15_cascade_closure covers the whole call: every object reachable through cascading relationships in the state before the call is gone afterwards.')
 TECHNIQUE = 'Coq proof of an invariant of a policy-parametric recursive removal (one proof for _delete_ and for ON DELETE) + vm_compute correspondence + exhaustive small-graph differential search on SQLite'
 DESIGN_REF = 'DESIGN.md section 5, C15; Appendix A'
 
